@@ -33,84 +33,181 @@ fn wide_ll(a: &Ipv6Address) -> bool {
     o[0] == 0xfe && o[1] & 0xc0 == 0x80 && o[..8] != [0xfe, 0x80, 0, 0, 0, 0, 0, 0]
 }
 
+fn ucast_class(a: &Ipv6Address) -> &'static str {
+    let o = a.octets();
+    if o == [0; 16] {
+        "unspecified"
+    } else if o[..8] == [0xfe, 0x80, 0, 0, 0, 0, 0, 0] {
+        "fe80-64"
+    } else if wide_ll(a) {
+        "fe80-10-outside-fe80-64"
+    } else {
+        "full"
+    }
+}
+/// fe80::/64 address whose link-layer address coincides with it in a way that is NOT one of
+/// the two elision rules (short address <-> 0000:00ff:fe00:XXXX, extended address <-> EUI-64)
+fn coincidence(a: &Ipv6Address, ll: &Ll) -> Option<&'static str> {
+    let o = a.octets();
+    if o[..8] != [0xfe, 0x80, 0, 0, 0, 0, 0, 0] {
+        return None;
+    }
+    let short_form = o[8..14] == [0, 0, 0, 0xff, 0xfe, 0];
+    match ll {
+        Some(Ieee802154Address::Short(x)) if *x == [o[14], o[15]] && !short_form => Some("ll-short-equals-low16-of-other-iid"),
+        Some(Ieee802154Address::Extended(e)) if short_form => {
+            let mut eui = *e;
+            eui[0] ^= 0x02;
+            if eui[..] == o[8..] {
+                Some("ll-extended-whose-eui64-has-short-form")
+            } else {
+                None
+            }
+        }
+        _ => None,
+    }
+}
+
 // ----------------------------------------------------------------------------------- IPHC
 /// Ctx = (link-layer source, link-layer destination, address contexts) handed to `parse`;
 /// for generated values the link-layer addresses are the Repr's own.
 pub struct Iphc;
 pub type IphcCtx = (Ll, Ll, Vec<SixlowpanAddressContext>);
-impl Rt for Iphc {
-    const NAME: &'static str = "SixlowpanIphcRepr";
-    type R<'x> = SixlowpanIphcRepr;
-    type Ctx = IphcCtx;
-    fn nchunks(_tier: Tier) -> usize {
-        4
+
+/// fe80::/10 but not fe80::/64 ("link-local" by the prefix RFC 4291 reserves, yet not of the
+/// fe80::/64 form the stateless IPHC modes can rebuild), with the three interface-identifier
+/// forms the compressor distinguishes: derived from the extended link-layer address, the
+/// 0000:00ff:fe00:XXXX short-address form, arbitrary
+fn wide() -> [Ipv6Address; 5] {
+    [
+        Ipv6Address::new(0xfe80, 0, 0, 1, 0x0011, 0x2233, 0x4455, 0x6677), // IID = EUI-64 of E1
+        Ipv6Address::new(0xfe90, 0, 0, 0, 0, 0xff, 0xfe00, 0x1234),        // IID = short form of S1
+        Ipv6Address::new(0xfebf, 0xffff, 0, 0, 0, 0, 0, 1),                // arbitrary IID
+        Ipv6Address::new(0xfe80, 0, 0, 1, 0, 0, 0, 0xabcd),
+        Ipv6Address::new(0xfe90, 0, 0, 0, 0, 0xff, 0xfe00, 0xbeef),
+    ]
+}
+/// unicast (and unspecified) addresses, used for source and destination alike
+fn iphc_unicast(tier: Tier) -> Vec<Ipv6Address> {
+    let w = wide();
+    let all = [
+        Ipv6Address::new(0xfe80, 0, 0, 0, 0x0011, 0x2233, 0x4455, 0x6677), // = EUI-64 of E1
+        Ipv6Address::new(0, 0, 0, 0, 0, 0, 0, 0),
+        Ipv6Address::new(0x2001, 0xdb8, 0, 0, 0, 0, 0, 1),
+        Ipv6Address::new(0xfe80, 0, 0, 0, 0, 0xff, 0xfe00, 0x1234), // = short address S1
+        Ipv6Address::new(0xfe80, 0, 0, 0, 0, 0, 0, 1),              // arbitrary IID, low 16 bits 0001
+        w[0],
+        w[1],
+        w[2],
+        Ipv6Address::new(0xfe80, 0, 0, 0, 0x0200, 0x00ff, 0xfe00, 0x1234), // short form with the U/L bit set
+        Ipv6Address::new(0xfe80, 0, 0, 0, 0, 0xff, 0xfe00, 1),
+        Ipv6Address::new(0xfe80, 0, 0, 0, 0x0200, 0xff, 0xfe00, 1),
+        Ipv6Address::new(0xfe80, 0, 0, 0, 0, 0xff, 0xfe00, 0xffff),
+        Ipv6Address::new(0, 0, 0, 0, 0, 0, 0, 1),
+        w[3],
+        w[4],
+    ];
+    pick(tier, &all, 9)
+}
+/// multicast destinations: the named forms, exactly one non-zero octet at every position
+/// 2..=15, the same with a 16-bit group id behind it, and the largest member of each
+/// compressed form (boundary on the other side)
+fn iphc_multicast() -> Vec<Ipv6Address> {
+    let mut v = vec![
+        Ipv6Address::new(0xff02, 0, 0, 0, 0, 0, 0, 1),      // 8-bit form
+        Ipv6Address::new(0xff0e, 1, 0, 0, 0, 0, 0, 1),      // no compressed form
+        Ipv6Address::new(0xff02, 0, 0, 0, 0, 1, 0xff00, 1), // 48-bit form
+        Ipv6Address::new(0xff05, 0, 0, 0, 0, 0, 1, 3),      // 32-bit form
+        Ipv6Address::new(0xff02, 0, 0, 0, 0, 0, 0, 0xff),   // largest 8-bit form
+        Ipv6Address::new(0xff01, 0, 0, 0, 0, 0, 0, 1),      // 8-bit shape but scope 1: 32-bit form
+        Ipv6Address::new(0xffff, 0, 0, 0, 0, 0, 0xff, 0xffff),       // largest 32-bit form
+        Ipv6Address::new(0xffff, 0, 0, 0, 0, 0xff, 0xffff, 0xffff),  // largest 48-bit form
+        Ipv6Address::new(0xffff, 0xffff, 0xffff, 0xffff, 0xffff, 0xffff, 0xffff, 0xffff),
+    ];
+    for k in 2..=15usize {
+        let mut o = [0u8; 16];
+        o[0] = 0xff;
+        o[1] = 0x35;
+        o[k] = 0x80;
+        v.push(Ipv6Address::from_octets(o)); // exactly one non-zero octet (RFC 3307 style ff35::/16)
+        if k < 14 {
+            o[14] = 0x12;
+            o[15] = 0x34;
+            v.push(Ipv6Address::from_octets(o)); // ... in front of a 16-bit group id
+        }
+        if k >= 13 {
+            let mut o2 = [0u8; 16];
+            o2[0] = 0xff;
+            o2[1] = 0x02;
+            o2[k] = 0x80;
+            v.push(Ipv6Address::from_octets(o2)); // scope 2: around the 8-bit form
+        }
     }
-    fn chunk(tier: Tier, i: usize) -> Vec<(SixlowpanIphcRepr, IphcCtx)> {
-        // fe80::/10 but not fe80::/64 ("link-local" by the prefix RFC 4291 reserves, yet not
-        // of the fe80::/64 form the stateless IPHC modes can rebuild), with the three
-        // interface-identifier forms the compressor distinguishes: derived from the extended
-        // link-layer address, the 0000:00ff:fe00:XXXX short-address form, arbitrary
-        let wide = [
-            Ipv6Address::new(0xfe80, 0, 0, 1, 0x0011, 0x2233, 0x4455, 0x6677), // IID = EUI-64 of E1
-            Ipv6Address::new(0xfe90, 0, 0, 0, 0, 0xff, 0xfe00, 0x1234),        // IID = short form of S1
-            Ipv6Address::new(0xfebf, 0xffff, 0, 0, 0, 0, 0, 1),                // arbitrary IID
-            Ipv6Address::new(0xfe80, 0, 0, 1, 0, 0, 0, 0xabcd),
-            Ipv6Address::new(0xfe90, 0, 0, 0, 0, 0xff, 0xfe00, 0xbeef),
-        ];
-        let srcs = [
-            Ipv6Address::new(0xfe80, 0, 0, 0, 0x0011, 0x2233, 0x4455, 0x6677), // = EUI-64 of E1
-            Ipv6Address::new(0, 0, 0, 0, 0, 0, 0, 0),
-            Ipv6Address::new(0x2001, 0xdb8, 0, 0, 0, 0, 0, 1),
-            Ipv6Address::new(0xfe80, 0, 0, 0, 0, 0xff, 0xfe00, 0x1234), // = short address S1
-            wide[0],
-            wide[1],
-            wide[2],
-            Ipv6Address::new(0xfe80, 0, 0, 0, 0, 0, 0, 1),
-            Ipv6Address::new(0xfe80, 0, 0, 0, 0, 0xff, 0xfe00, 0xffff),
-            Ipv6Address::new(0, 0, 0, 0, 0, 0, 0, 1),
-            wide[3],
-            wide[4],
-        ];
-        let dsts = [
-            Ipv6Address::new(0xfe80, 0, 0, 0, 0x0011, 0x2233, 0x4455, 0x6677),
-            Ipv6Address::new(0xff02, 0, 0, 0, 0, 0, 0, 1),        // 8-bit multicast form
-            Ipv6Address::new(0x2001, 0xdb8, 0, 0, 0, 0, 0, 1),    // full
-            Ipv6Address::new(0xff0e, 1, 0, 0, 0, 0, 0, 1),        // multicast, no compressed form
-            Ipv6Address::new(0xfe80, 0, 0, 0, 0, 0xff, 0xfe00, 0x1234),
-            wide[0],
-            wide[1],
-            wide[2],
-            Ipv6Address::new(0xff02, 0, 0, 0, 0, 1, 0xff00, 1),   // 48-bit multicast form
-            Ipv6Address::new(0xff05, 0, 0, 0, 0, 0, 1, 3),        // 32-bit multicast form
-            Ipv6Address::new(0xfe80, 0, 0, 0, 0, 0, 0, 1),        // 64-bit form
-            Ipv6Address::new(0, 0, 0, 0, 0, 0, 0, 0),
-            wide[3],
-            wide[4],
-        ];
-        let nhs = [
+    v
+}
+/// link-layer addresses tried with IP address `a`: the fixed kinds plus the ones DERIVED from
+/// `a` (where compressor and length computation have to agree on coincidences): the short
+/// address equal to the low 16 bits, the extended address whose EUI-64 is the IID, and the
+/// extended address 02:00:00:ff:fe:00:lo:hi whose EUI-64 looks like a short-address IID
+fn iphc_lls(tier: Tier, a: &Ipv6Address) -> Vec<Ll> {
+    let o = a.octets();
+    let mut eui = [0u8; 8];
+    eui.copy_from_slice(&o[8..]);
+    eui[0] ^= 0x02;
+    let mut v = vec![
+        Some(Ieee802154Address::Short([o[14], o[15]])),
+        Some(Ieee802154Address::Extended(eui)),
+        Some(Ieee802154Address::Extended([0x02, 0, 0, 0xff, 0xfe, 0, o[14], o[15]])),
+    ];
+    for l in pick(tier, &lls(), 3) {
+        if !v.contains(&l) {
+            v.push(l);
+        }
+    }
+    v
+}
+fn iphc_nhs(tier: Tier) -> Vec<SixlowpanNextHeader> {
+    pick(
+        tier,
+        &[
             SixlowpanNextHeader::Compressed,
             SixlowpanNextHeader::Uncompressed(IpProtocol::Icmpv6),
             SixlowpanNextHeader::Uncompressed(IpProtocol::Udp),
             SixlowpanNextHeader::Uncompressed(IpProtocol::Unknown(0xfe)),
-        ];
+        ],
+        2,
+    )
+}
+
+impl Rt for Iphc {
+    const NAME: &'static str = "SixlowpanIphcRepr";
+    type R<'x> = SixlowpanIphcRepr;
+    type Ctx = IphcCtx;
+    fn nchunks(tier: Tier) -> usize {
+        iphc_nhs(tier).len() * iphc_unicast(tier).len()
+    }
+    fn chunk(tier: Tier, i: usize) -> Vec<(SixlowpanIphcRepr, IphcCtx)> {
+        let nhs = iphc_nhs(tier);
+        let nh = nhs[i % nhs.len()];
+        let s = iphc_unicast(tier)[i / nhs.len()];
         // traffic class / flow label: the four shapes the TF field has
         let tfs: [(Option<u8>, Option<u8>, Option<u16>); 4] = [(None, None, None), (Some(0x40), Some(0x3f), Some(0xffff)), (Some(0xc0), None, Some(0)), (Some(0), Some(0), None)];
-        let nh = nhs[i];
-        if tier == Tier::Quick && i >= 2 {
-            return vec![];
+        // destination x its link-layer addresses (for multicast the link-layer address plays
+        // no role in the encoding: two kinds only)
+        let mut dsts: Vec<(Ipv6Address, Vec<Ll>)> = iphc_unicast(tier).into_iter().map(|d| (d, iphc_lls(tier, &d))).collect();
+        for d in iphc_multicast() {
+            dsts.push((d, vec![Some(Ieee802154Address::Extended(E1)), None]));
         }
         let mut v = vec![];
-        for s in pick(tier, &srcs, 7) {
-            for ls in pick(tier, &lls(), 3) {
-                for d in pick(tier, &dsts, 8) {
-                    for ld in pick(tier, &lls(), 3) {
-                        for hl in pick(tier, &[64u8, 2, 1, 255, 0], 3) {
-                            for tf in pick(tier, &tfs, 2) {
-                                v.push((
-                                    SixlowpanIphcRepr { src_addr: s, ll_src_addr: ls, dst_addr: d, ll_dst_addr: ld, next_header: nh, hop_limit: hl, ecn: tf.0, dscp: tf.1, flow_label: tf.2 },
-                                    (ls, ld, vec![]),
-                                ));
-                            }
+        for ls in iphc_lls(tier, &s) {
+            for (d, lds) in &dsts {
+                for ld in lds {
+                    for hl in pick(tier, &[64u8, 2, 1, 255, 0], 3) {
+                        for tf in pick(tier, &tfs, 2) {
+                            v.push((
+                                SixlowpanIphcRepr { src_addr: s, ll_src_addr: ls, dst_addr: *d, ll_dst_addr: *ld, next_header: nh, hop_limit: hl, ecn: tf.0, dscp: tf.1, flow_label: tf.2 },
+                                (ls, *ld, vec![]),
+                            ));
                         }
                     }
                 }
@@ -144,22 +241,33 @@ impl Rt for Iphc {
             } else {
                 "mcast-full".into()
             }
-        } else if d[..8] == [0xfe, 0x80, 0, 0, 0, 0, 0, 0] {
-            "ucast-ll".into()
-        } else if wide_ll(&r.dst_addr) {
-            "ucast-fe80/10".into()
         } else {
-            "ucast-full".into()
+            ucast_class(&r.dst_addr).into()
         }
     }
-    fn sig_tag(r: &SixlowpanIphcRepr) -> String {
-        if wide_ll(&r.src_addr) || wide_ll(&r.dst_addr) {
-            "addr-in-fe80-10-outside-fe80-64".into()
-        } else if Self::tag(r) == "mcast-full" {
-            "dst-multicast-without-compressed-form".into()
+    fn sig_tag_for(r: &SixlowpanIphcRepr, fields: &str) -> String {
+        let mut t: Vec<String> = vec![];
+        if fields.is_empty() {
+            // panic / buffer dependence: name the address / link-layer address coincidences
+            // (the places where length computation and emission must agree), if any
+            // (which side shows it is in the detail text; the set of kinds keeps one defect
+            // from spreading over src x dst combinations)
+            for c in [coincidence(&r.src_addr, &r.ll_src_addr), coincidence(&r.dst_addr, &r.ll_dst_addr)].into_iter().flatten() {
+                if !t.iter().any(|x| x == c) {
+                    t.push(c.to_string());
+                }
+            }
+            t.sort();
         } else {
-            String::new()
+            // a wrong address: the encoding class of that address only
+            if fields.contains("src_addr") {
+                t.push(format!("src-{}", ucast_class(&r.src_addr)));
+            }
+            if fields.contains("dst_addr") {
+                t.push(format!("dst-{}", Self::tag(r)));
+            }
         }
+        t.join("+")
     }
     fn field_group(f: &str) -> String {
         match f {
@@ -220,7 +328,7 @@ impl Rt for Iphc {
         v
     }
     fn domain_doc() -> &'static str {
-        "emit side: src {link-local = EUI-64 of the extended ll address, ::, global, link-local = short ll address form, link-local other, link-local short form other, ::1, and 5 addresses in fe80::/10 outside fe80::/64 (fe80:0:0:1::/64, fe90::/16, febf:ffff::/32) with interface identifiers of the three forms: derived from the ll address, 0000:00ff:fe00:XXXX, arbitrary} x ll_src {extended, None, short, Absent, broadcast short, other extended} x dst {the same unicast kinds (incl. the 5 fe80::/10 ones) + multicast in the 8-, 32-, 48-bit forms and one multicast with no compressed form, ::} x ll_dst(6) x next_header {Compressed, Udp, Icmpv6, Unknown(0xfe)} x hop_limit {0,1,2,64,255} x (ecn,dscp,flow_label) in the four shapes of the TF field; parse side (hand-made catalogue): all 8192 IPHC base headers (every TF/NH/HLIM/CID/SAC/SAM/M/DAC/DAM combination) followed by in-line bytes, x 3 CID bytes x 4 link-layer address pairs (extended/short, none, short/extended, absent) x context tables of 2, 0 and 1 entries"
+        "emit side: src over 15 unicast kinds (:: ; global; ::1; fe80::/64 with IID = EUI-64 of an extended ll address, = short-address form 0000:00ff:fe00:XXXX (also with the U/L bit set: 0200:00ff:fe00:XXXX), arbitrary (fe80::1); 5 addresses in fe80::/10 outside fe80::/64 with the three IID forms) x ll_src over {Short(low 16 bits of the address), Extended(EUI-64 matching the IID), Extended(02:00:00:ff:fe:00:lo:hi), fixed: extended, None, short, Absent, broadcast short, other extended} x dst over the same unicast kinds (each with its derived + fixed ll_dst) and 47 multicast addresses (8/32/48-bit forms and their largest members, scope-1 and no-compressed-form cases, exactly one non-zero octet at every position 2..=15 alone and in front of a 16-bit group id, scope-2 variants around the 8-bit form; ll_dst in {extended, None}) x next_header {Compressed, Udp, Icmpv6, Unknown(0xfe)} x hop_limit {0,1,2,64,255} x (ecn,dscp,flow_label) in the four shapes of the TF field; parse side (hand-made catalogue): all 8192 IPHC base headers (every TF/NH/HLIM/CID/SAC/SAM/M/DAC/DAM combination) followed by in-line bytes, x 3 CID bytes x 4 link-layer address pairs (extended/short, none, short/extended, absent) x context tables of 2, 0 and 1 entries"
     }
 }
 
